@@ -35,6 +35,9 @@ type call struct {
 	commitTs uint64
 	rw       bool
 	rows     []string // iterator output key=value
+	// readMarkAtBegin is the oracle's read watermark observed right after the
+	// transaction began (diagnostics for missed conflicts).
+	readMarkAtBegin uint64
 }
 
 type modeC struct {
@@ -74,6 +77,18 @@ func (m *modeC) open(ignorePrefixes ...string) error {
 			}
 		}
 		return false
+	}
+	if d := int(w.C.CfgInt("pct_depth", 0)); d > 0 {
+		w.Sched.UsePCT(d, int(w.C.CfgInt("pct_horizon", 300)))
+		if odds := int(w.C.CfgInt("pause_odds", 0)); odds > 0 {
+			w.Sched.PauseOdds = odds
+			w.Sched.PauseAt = map[string]bool{}
+			for _, site := range []string{"wm.begin.published", "wm.add.window", "wm.add.added", "orc.committs.issued", "orc.committs.begun",
+				"orc.readts.loaded", "orc.readts.clamped", "orc.readts.waited", "commit.batch.formed", "commit.vlog.written", "commit.applied",
+				"txn.commit.written", "orc.donecommit", "db.write.enqueued", "db.write.acked", "client.begin", "client.step"} {
+				w.Sched.PauseAt[site] = true
+			}
+		}
 	}
 	verifhook.EventFn = func(owner any, site string, a, b int64) {
 		if site == "txn.committs" {
@@ -151,6 +166,7 @@ func (m *modeC) runTxn(task, ord int, sc txnScript, step int) {
 	m.calls = append(m.calls, begin)
 	txn := m.w.DB.NewTransaction(sc.update)
 	begin.readTs = txn.ReadTs()
+	begin.readMarkAtBegin = m.w.DB.VerifReadMarkDoneUntil()
 	begin.ret = m.next()
 	m.res.Trace.Add("t%d txn%d begin rw=%v readTs=%d", task, ord, sc.update, begin.readTs)
 	m.yield("client.begin")
